@@ -10,7 +10,7 @@
 
   Deviations of the pinned tree that are transcribed faithfully in ALG (SPEC keeps the property's meaning);
   each has a region predicate at the end of the ALG section with the same name as in harness/props/C03.py:
-    byteswapNoRepeatPastEnd, rotEmptyRange, overwriteSelfNonzero, setRangeAsSlice, setSliceIntNegStep,
+    byteswapNoRepeatPastEnd, setRangeAsSlice, setSliceIntStepRegion, setSliceIntNegStep,
     setAllEmpty, emptyOperandBadPos, replaceCountZeroUnchecked.
 -/
 import BitstringModel.Model.Basic
@@ -428,13 +428,15 @@ def insert (l : Bits) (b : Operand) (pos : Int) : Except Err Bits :=
   if ¬ (0 ≤ p ∧ p ≤ (l.length : Int)) then .error .value else
   _insert l bs p.toNat
 
-/-- `BitArray.overwrite` / `BitStream.overwrite` with an explicit `pos` (bitarray_.py: def overwrite). -/
+/-- `BitArray.overwrite` / `BitStream.overwrite` with an explicit `pos` (bitarray_.py: def overwrite;
+    bitstream.py: def overwrite).  `if bs is self: bs = self._copy()` makes the operand a value, so the
+    `bs is self` branch of `_overwrite` is not reached from here. -/
 def overwrite (l : Bits) (b : Operand) (pos : Int) : Except Err Bits :=
   let bs := b.val l
   if bs.length = 0 then .ok l else
   let p := if pos < 0 then pos + (l.length : Int) else pos
   if p < 0 ∨ p > (l.length : Int) then .error .value else
-  _overwrite l b p.toNat
+  _overwrite l (.lit bs) p.toNat
 
 /-- `__delitem__`: `self._bitstore.__delitem__(key)`. -/
 def delItem (l : Bits) (i : Int) : Except Err Bits := PyL.delIndex l i
@@ -553,8 +555,8 @@ def _ror (l : Bits) (k : Int) (s e : Option Int) : Except Err Bits :=
   match validateSlice l.length s e with
   | .error err => .error err
   | .ok (a, z) =>
-    if z - a = 0 then .error (.internal "ZeroDivisionError") else       -- bits %= (end - start)
-    let r := k.toNat % (z - a)
+    if z - a = 0 then .ok l else                  -- if start == end: return
+    let r := k.toNat % (z - a)                    -- bits %= (end - start)
     if r = 0 then .ok l else
     let rhs := slc l (z - r) z
     match _delete l r (z - r) with
@@ -566,7 +568,7 @@ def _rol (l : Bits) (k : Int) (s e : Option Int) : Except Err Bits :=
   match validateSlice l.length s e with
   | .error err => .error err
   | .ok (a, z) =>
-    if z - a = 0 then .error (.internal "ZeroDivisionError") else
+    if z - a = 0 then .ok l else
     let r := k.toNat % (z - a)
     if r = 0 then .ok l else
     let lhs := slc l a (a + r)
@@ -667,20 +669,6 @@ def byteswapNoRepeatPastEnd (l : Bits) (f : Fmt) (s e : Option Int) (rep : Bool)
     match fmtSizes f a z with
     | .error _ => false
     | .ok sizes => !rep && 8 * sizes.sum != 0 && decide (z < a + 8 * sizes.sum)
-
-/-- `rol` / `ror` over an empty range of a non-empty bitstring. -/
-def rotEmptyRange (l : Bits) (k : Int) (s e : Option Int) : Bool :=
-  l.length != 0 && decide (0 ≤ k) &&
-  match validateSlice l.length s e with
-  | .error _ => false
-  | .ok (a, z) => a == z
-
-/-- `a.overwrite(a, pos)` at a valid position other than 0 (of a non-empty `a`). -/
-def overwriteSelfNonzero (l : Bits) (b : Operand) (pos : Int) : Bool :=
-  b.isSelf && l.length != 0 &&
-  match Spec.insPos l.length pos with
-  | none => false
-  | some p => p != 0
 
 /-- `set(v, range(a, b, c))` is executed as the slice `[a:b:c]`; the region is where that differs from the
     positions of the range (a bound that changes sign, a descending range down to index 0, a position out of range). -/
@@ -792,11 +780,9 @@ def stepSpec (l : Bits) : Op → Outcome
 /-- A step on which the pinned tree is known to deviate from the property (union of the regions). -/
 def Op.deviant (l : Bits) : Op → Bool
   | .insert b pos => emptyOperandBadPos l b pos
-  | .overwrite b pos => emptyOperandBadPos l b pos || overwriteSelfNonzero l b pos
+  | .overwrite b pos => emptyOperandBadPos l b pos
   | .setSlice a b c (.int _) => setSliceIntNegStep l a b c || setSliceIntStepRegion l a b c
   | .replace old _ s e count _ => replaceCountZeroUnchecked l old s e count
-  | .rol k s e => rotEmptyRange l k s e
-  | .ror k s e => rotEmptyRange l k s e
   | .set _ (.range a b c) => setRangeAsSlice l a b c
   | .set _ p => setAllEmpty l p
   | .byteswap f s e rep => byteswapNoRepeatPastEnd l f s e rep
@@ -811,8 +797,8 @@ def Op.keepsLength : Op → Bool
 /-- Operations that have no known-deviation region at all. -/
 def Op.neverDeviant : Op → Bool
   | .append _ | .prepend _ | .delItem _ | .delSlice _ _ _ | .setItem _ _ | .setSlice _ _ _ (.bits _)
-  | .reverse _ _ | .invert _ | .set _ (.one _) | .set _ (.many _) | .ishl _ | .ishr _ | .imul _
-  | .iand _ | .ior _ | .ixor _ | .clear => true
+  | .reverse _ _ | .rol _ _ _ | .ror _ _ _ | .invert _ | .set _ (.one _) | .set _ (.many _)
+  | .ishl _ | .ishr _ | .imul _ | .iand _ | .ior _ | .ixor _ | .clear => true
   | _ => false
 
 /-- A history: the outcome of every step, each step acting on the content the previous one left. -/
